@@ -45,7 +45,7 @@ if [ "$REPO" != "/repo" ] && [ -z "${VERIF_OUT_DIR:-}" ]; then
   export VERIF_OUT_DIR=$VERIF/build/scratch-repo-out   # runs against a scratch copy never touch evidence/
   mkdir -p "$VERIF_OUT_DIR"
 fi
-if [ "$mode" = "thorough" ] && { [ "$id" = "C12" ] || [ "$id" = "C20" ] || [ "$id" = "C07" ] || [ "$id" = "C10" ]; }; then
+if [ "$mode" = "thorough" ] && { [ "$id" = "C12" ] || [ "$id" = "C20" ] || [ "$id" = "C07" ] || [ "$id" = "C10" ] || [ "$id" = "C05" ]; }; then
   # labelled supplement (never the deciding step): the same bodies free-running under the race detector
   if (cd "$REPO" && go test -race -c -vet=off -tags verif -overlay "$ov" -o "$run/verif.race.test" . ) > "$run/build-race.log" 2>&1; then
     export VERIF_RACE_BIN=$run/verif.race.test
